@@ -94,6 +94,7 @@ type vfAbs struct {
 	Started bool // a batch id is set
 	PolySet bool // PubPolyBz non-empty
 	PolyAgr bool // ghost: every announcer so far announced the retained polynomial
+	SgnUpd  bool // SigningProposalPayload.UpdatedAt is non-zero (never the case on the pinned tree)
 }
 
 func (a *vfAbs) String() string {
@@ -151,6 +152,9 @@ func (a *vfAbs) String() string {
 	fl(a.Started, 's')
 	fl(a.PolySet, 'P')
 	fl(a.PolyAgr, 'p')
+	if a.SgnUpd {
+		sb.WriteByte('u')
+	}
 	return sb.String()
 }
 
@@ -186,6 +190,7 @@ func vfParseAbs(s string) *vfAbs {
 	a.Started = f[6][0] == 's'
 	a.PolySet = f[6][1] == 'P'
 	a.PolyAgr = f[6][2] == 'p'
+	a.SgnUpd = len(f[6]) > 3 && f[6][3] == 'u'
 	return a
 }
 
@@ -239,6 +244,7 @@ func vfAbstract(d *FSMDump, n int, polyAgr bool) *vfAbs {
 	if p.SigningProposalPayload != nil {
 		a.HasSgn = true
 		a.Started = p.SigningProposalPayload.BatchID != ""
+		a.SgnUpd = !p.SigningProposalPayload.UpdatedAt.IsZero()
 		if len(p.SigningProposalPayload.Quorum) > 0 {
 			for i := 0; i < n; i++ {
 				q, ok := p.SigningProposalPayload.Quorum[i]
@@ -342,7 +348,10 @@ func vfConcretize(a *vfAbs) *FSMDump {
 		sg := &internal.SigningConfirmation{
 			Quorum:      make(internal.SigningProposalQuorum),
 			InitiatorId: vf.Int("sgn.initiator"),
-			CreatedAt:   vf.Time("sgn.created"), UpdatedAt: vf.TimeZ("sgn.updated"), ExpiresAt: vf.Time("sgn.expires"),
+			CreatedAt:   vf.Time("sgn.created"), UpdatedAt: vf.ZeroTime(), ExpiresAt: vf.Time("sgn.expires"),
+		}
+		if a.SgnUpd {
+			sg.UpdatedAt = vf.Time("sgn.updated")
 		}
 		if a.Started {
 			sg.BatchID = vf.Str("sgn.batch")
@@ -560,7 +569,37 @@ func VF_FSMStep() {
 	vfCheckSigning(a, post, ev, pid, hasPid, inst, before, args, resp)
 	vfCheckGlobal(a, post, ev)
 
+	vfCheckInvariants(post, inst)
 	vf.Record("edge", "accepted", post.String())
+}
+
+// vfCheckInvariants: the invariants gamma assumes for pre-states are re-established by every accepted step.
+func vfCheckInvariants(post *vfAbs, inst *FSMInstance) {
+	p := inst.dump.Payload
+	if post.State == vfSigAwait {
+		vf.Assert("inv:await-not-expired", !p.SignatureProposalPayload.IsExpired())
+	}
+	for _, ph := range vfDkgPhases {
+		if post.State == ph.await {
+			vf.Assert("inv:await-not-expired", !p.DKGProposalPayload.IsExpired())
+		}
+	}
+	if post.State == vfSignAwait {
+		vf.Assert("inv:await-not-expired", !p.SigningProposalPayload.IsExpired())
+	}
+	if post.State == vfMaster || post.State == vfMasterDone {
+		var first []byte
+		for i := 0; i < post.N; i++ {
+			if post.Dkg[i] == 10 {
+				k := p.DKGProposalPayload.Quorum[i].DkgMasterKey
+				if first == nil {
+					first = k
+				} else {
+					vf.Assert("inv:confirmed-masterkeys-equal", vf.BytesEq(first, k))
+				}
+			}
+		}
+	}
 }
 
 var vfOrder = []string{vfIdle, vfSigAwait, vfSigDone, vfCommits, vfDeals, vfResponses, vfMaster, vfMasterDone, vfSignIdle}
@@ -755,7 +794,9 @@ func vfCheckMasterKey(a, post *vfAbs, p int, inst *FSMInstance, before *FSMDump,
 		agreed = a.PolyAgr && vf.Decide(vf.BytesEq(before.Payload.DKGProposalPayload.PubPolyBz, r.PubPolyBz))
 	}
 	post.PolyAgr = agreed && post.State == vfMaster
-	vf.Assert("poly-retained-is-announced", vf.BytesEq(q.PubPolyBz, r.PubPolyBz))
+	if post.State != vfMasterErr {
+		vf.Assert("poly-retained-is-announced", vf.BytesEq(q.PubPolyBz, r.PubPolyBz))
+	}
 	if post.State == vfMasterDone {
 		vf.Assert("poly-agreed", agreed)
 	}
@@ -859,9 +900,20 @@ func vfCheckCollected(a *vfAbs, p int, inst *FSMInstance, before *FSMDump, r req
 		if i != p {
 			vf.Assert("response-lists-contributors:stored-signs", vf.Eq(e.PartialSigns, before.Payload.SigningProposalPayload.Quorum[i].PartialSigns))
 		} else {
-			for _, ps := range r.PartialSigns {
+			for k, ps := range r.PartialSigns {
 				got, has := e.PartialSigns[ps.MessageID]
-				vf.Assert("response-lists-contributors:own-signs", vf.And(has, vf.BytesEq(got, ps.Sign)))
+				// with a repeated message id inside one request the last entry wins; compare the last one only
+				last := true
+				for k2 := k + 1; k2 < len(r.PartialSigns); k2++ {
+					if vf.Decide(r.PartialSigns[k2].MessageID == ps.MessageID) {
+						last = false
+					}
+				}
+				if last {
+					vf.Assert("response-lists-contributors:own-signs", vf.And(has, vf.BytesEq(got, ps.Sign)))
+				} else {
+					vf.Assert("response-lists-contributors:own-signs", has)
+				}
 			}
 		}
 	}
